@@ -1040,7 +1040,12 @@ fn run(args: Args) -> Report {
                 let case_seed = r.next_u64();
                 let mut cr = Rng::new(case_seed);
                 let cfg = gen_cfg(&mut cr, false);
-                let ws = gen::generate(&mut cr, &cfg);
+                let mut ws = gen::generate(&mut cr, &cfg);
+                // one workspace in three spans two local packages (app -> lib)
+                if cr.chance(1, 3) {
+                    ws.split_packages(&mut cr);
+                }
+                rep.see("package_layouts", if ws.split.is_some() { "two local packages (app -> lib)" } else { "single package" });
                 journal.begin("c05", files_json(&ws.files()).to_string().as_bytes());
                 run_c05_case(&mut rep, &ws, case_seed);
                 if rep.samples.len() < 3 && n % 41 == 0 {
@@ -1069,7 +1074,12 @@ fn run(args: Args) -> Report {
                     (d.files, "generated+damaged")
                 } else {
                     let cfg = gen_cfg(&mut cr, false);
-                    let ws = gen::generate(&mut cr, &cfg);
+                    let mut ws = gen::generate(&mut cr, &cfg);
+                    // one workspace in three spans two local packages (app -> lib)
+                    if cr.chance(1, 3) {
+                        ws.split_packages(&mut cr);
+                    }
+                    rep.see("package_layouts", if ws.split.is_some() { "two local packages (app -> lib)" } else { "single package" });
                     (ws.files(), "generated")
                 };
                 journal.begin("c06", files_json(&files).to_string().as_bytes());
@@ -1086,7 +1096,12 @@ fn run(args: Args) -> Report {
                 let case_seed = r.next_u64();
                 let mut cr = Rng::new(case_seed);
                 let cfg = gen_cfg(&mut cr, false);
-                let ws = gen::generate(&mut cr, &cfg);
+                let mut ws = gen::generate(&mut cr, &cfg);
+                // one workspace in three spans two local packages (app -> lib)
+                if cr.chance(1, 3) {
+                    ws.split_packages(&mut cr);
+                }
+                rep.see("package_layouts", if ws.split.is_some() { "two local packages (app -> lib)" } else { "single package" });
                 journal.begin("c07", files_json(&ws.files()).to_string().as_bytes());
                 run_c07_case(&mut rep, &ws, case_seed, &mut cr, per_ws);
                 if rep.samples.len() < 3 && n % 17 == 0 {
@@ -1116,7 +1131,12 @@ fn run(args: Args) -> Report {
                 let case_seed = r.next_u64();
                 let mut cr = Rng::new(case_seed);
                 let cfg = gen_cfg(&mut cr, true);
-                let ws = gen::generate(&mut cr, &cfg);
+                let mut ws = gen::generate(&mut cr, &cfg);
+                // one workspace in three spans two local packages (app -> lib)
+                if cr.chance(1, 3) {
+                    ws.split_packages(&mut cr);
+                }
+                rep.see("package_layouts", if ws.split.is_some() { "two local packages (app -> lib)" } else { "single package" });
                 journal.begin("c18", files_json(&ws.files()).to_string().as_bytes());
                 run_c18_case(&mut rep, &ws, case_seed);
                 if rep.samples.len() < 3 && n % 17 == 0 && !ws.holes.is_empty() {
